@@ -293,6 +293,22 @@ def _request_loop_and_self_cancel(chk, repo):
             chk.ob("SEARCH-5", "%s asks each candidate, handing on the path so far" % qn, len(rec) >= 1 and all(any(k.arg == "path" or True for k in c.keywords) or c.args for n, c in rec),
                    sf.where(rec[0][1]), construct=sf.ident, text="search recursion", nontrivial=False)
 
+    # UNIT-5: the eject time-out of a request is the configured eject_timeouts entry (ms) in seconds: every site that fills OutgoingBall.eject_timeout
+    # scales by 1/1000 (siblings: setup_eject_chain_next_hop and the idle mechanical eject); the waits that consume it take seconds
+    n_t = 0
+    for m_ in repo.cls(BD, "BallDevice").methods.values():
+        for x in walk_local(m_.node):
+            if isinstance(x, ast.Assign) and isinstance(x.targets[0], ast.Attribute) and x.targets[0].attr == "eject_timeout":
+                n_t += 1
+                chk.analysed(m_)
+                v = x.value
+                ok = isinstance(v, ast.BinOp) and ((isinstance(v.op, ast.Div) and const_value(v.right) in (1000, 1000.0)) or
+                                                   (isinstance(v.op, ast.Mult) and const_value(v.right) == 0.001)) and \
+                    src(v.left).replace('"', "'").startswith("self.config['eject_timeouts'][")
+                chk.ob("UNIT-5", "BallDevice.%s fills the request's eject time-out with the configured ms value in seconds (/ 1000)" % m_.name, ok, m_.where(x),
+                       detail=src(v), construct=m_.ident, text="eject_timeout unit in " + m_.name)
+    chk.ob("UNIT-5", "eject time-out sites examined (%d)" % n_t, n_t >= 2, BD + ":1", nontrivial=False)
+
     n_c = 0
     for rel, m in sorted(repo.modules.items()):
         if not rel.startswith("mpf/devices/ball_device/"):
@@ -719,6 +735,7 @@ def battery():
         M("request loop left at the first ball that is not available", BD, "            if self._setup_or_queue_eject_to_target(target):\n                balls_found += 1", "            if not self._setup_or_queue_eject_to_target(target):\n                break\n            balls_found += 1", "REQ-5"),
         M("own task cancelled before the broken report", OB, "                self.ball_device.set_eject_state(\"eject_broken\")\n", "                self.ball_device.set_eject_state(\"eject_broken\")\n                self._task.cancel()\n", "CANCEL-5"),
         M("ball search over the sources gives up after the first source", BD, "            full_path = source.find_one_available_ball(path=path)\n            if full_path:\n                return full_path\n\n        return False", "            full_path = source.find_one_available_ball(path=path)\n            if full_path:\n                return full_path\n\n            return False", ["SEARCH-5", "LOOP-0"]),
+        M("idle mechanical eject waits the ms value in seconds", BD, "        eject.eject_timeout = self.config['eject_timeouts'][eject.target] / 1000", "        eject.eject_timeout = self.config['eject_timeouts'][eject.target]", "UNIT-5"),
     ]
 
 
